@@ -979,4 +979,63 @@ Proof.
   rewrite flat_enc_client_cons, !len_app in Hsz.
   pose proof (len_enc_preamble (c_pre c)). pose proof (len_enc_rcds_sfx _ _ Hs). split; lia.
 Qed.
+
+Definition sents (cs : list (N * N * creq)) (pairss : list (list (bytes * bytes))) : list req :=
+  map (fun cp => sent_request norm (fst cp) (snd cp)) (combine (map snd cs) pairss).
+
+Lemma KS_fold srs LS r (env : list (bytes * bytes)) : forall w, KS CAP srs LS r w ->
+  KS CAP srs LS r (fold_left (fun w p => w_ev (w_ev w (fst p)) (snd p)) env w).
+Proof. induction env as [|e t IH]; intros w H; [exact H|]. cbn [fold_left]. apply IH. exact H. Qed.
+
+(* Token::run: the trace grows by the requests of the client, in order *)
+Lemma run_loop_tr_prefix : forall fuel cs pairss p served w acc,
+  Forall (fun s : N * N * creq => creq_ok (snd s)) cs ->
+  Forall2 (fun (s : N * N * creq) ps => creq_fits B (snd s) ps) cs pairss ->
+  between cs p w ->
+  exists m, snd (run_loop_tr norm maxc fuel p scripts served w acc) = acc ++ firstn m (sents cs pairss).
+Proof.
+  induction fuel as [|f IH]; intros cs pairss p served w acc Hcs Hfit Hbt.
+  { exists 0%nat. cbn [run_loop_tr snd firstn]. rewrite app_nil_r. reflexivity. }
+  assert (NOW : forall (o : outcome) (w' : world), exists m, snd (o, w', acc) = acc ++ firstn m (sents cs pairss)).
+  { intros o w'. exists 0%nat. cbn [snd firstn]. rewrite app_nil_r. reflexivity. }
+  cbn [run_loop_tr]. destruct (stopped w); [apply NOW|].
+  destruct (parse_request norm maxc (io_fuel w 0) p [] w) as [[s0|k] w1|o w1] eqn:EPR; [|apply NOW|apply NOW].
+  destruct cs as [|[[ge gm] c] cs'].
+  { exfalso. apply (no_request_left p w _ s0 w1 Hbt EPR). }
+  inversion Hcs as [|? ? Hc Hcs']; subst. inversion Hfit as [|? ps ? pairss' Hf Hfit']; subst. cbn [snd] in Hc, Hf.
+  destruct (handover ge gm c cs' ps p w _ s0 w1 Hc Hcs' Hf Hbt EPR) as (Hreq & HKS).
+  cbv zeta.
+  assert (Hsents : sents ((ge, gm, c) :: cs') (ps :: pairss') = sreq s0 :: sents cs' pairss').
+  { unfold sents. cbn [map combine fst snd]. rewrite Hreq. reflexivity. }
+  assert (ONE : forall (o : outcome) (w' : world),
+            exists m, snd (o, w', acc ++ [sreq s0]) = acc ++ firstn m (sents ((ge, gm, c) :: cs') (ps :: pairss'))).
+  { intros o w'. exists 1%nat. rewrite Hsents. reflexivity. }
+  set (role := r_role (sreq s0)) in *.
+  set (r0 := mkR s0 (len (role_input_streams role) <=? 1) false false).
+  match goal with |- context [run_handler maxc _ _ r0 ?ww] => set (w2 := ww) end.
+  pose proof Hc as (_ & _ & _ & _ & C5 & _).
+  pose proof (enc_client_ne cs' Hcs') as HLS.
+  assert (HS2 : KS CAP (c_srs c) (enc_client cs') r0 w2) by (apply KS_fold; apply HKS).
+  set (script := nth served scripts (last scripts [])).
+  assert (Hscript : script_ok true role (next_input_stream role None) script).
+  { subst script. apply (Forall_nth_default (fun s => forall role, script_ok true role (next_input_stream role None) s));
+      [exact Hscripts|]. apply Forall_last; [exact Hscripts|]. intros role'. constructor. }
+  destruct (run_handler maxc (length script + 2) script r0 w2) as [[st r1] w3|o w3] eqn:ERH; [|apply ONE].
+  pose proof (run_handler_KS maxc CAP (c_srs c) (enc_client cs') C5 HLS true role _ script Hscript _ r0 w2 st r1 w3 HS2 ERH) as HS3'.
+  assert (CLOSE : forall d cc, exists m,
+    snd (match do_close maxc r1 d cc w3 with
+         | Halt o w4 => (o, w4, acc ++ [sreq s0])
+         | Ok (inl rp) w4 => run_loop_tr norm maxc f rp scripts (S served) w4 (acc ++ [sreq s0])
+         | Ok (inr _) w4 => (ORet, w4, acc ++ [sreq s0])
+         end) = acc ++ firstn m (sents ((ge, gm, c) :: cs') (ps :: pairss'))).
+  { intros d cc. destruct (do_close maxc r1 d cc w3) as [[rp|k] w4|o w4] eqn:EDC; [|apply ONE|apply ONE].
+    pose proof (do_close_K maxc CAP (c_srs c) (enc_client cs') C5 HLS r1 d cc w3 rp w4 HS3' EDC) as HCL.
+    destruct Hbt as (junk & cur & _ & _ & _ & _ & _ & _ & Hsz & _).
+    pose proof (closed_between ge gm c cs' ps junk rp w4 Hc Hf Hsz HCL) as Hbt'.
+    destruct (IH cs' pairss' rp (S served) w4 (acc ++ [sreq s0]) Hcs' Hfit' Hbt') as (m & Em).
+    exists (S m). rewrite Em, Hsents. cbn [firstn]. rewrite <- app_assoc. reflexivity. }
+  destruct st as [[d cc]|k].
+  - apply CLOSE.
+  - destruct ((k =? EK_Aborted) && raborted r1); [apply CLOSE|apply ONE].
+Qed.
 End Loop4.
